@@ -294,13 +294,16 @@ class Target:
         self.con = sqlite3.connect(self.dbfile, isolation_level=None, timeout=10, check_same_thread=False)
         seed_db(self.con)
         self.srv.start(wait=240)
-        self.tok = self.srv.logon("admin", "secret")
+        # generous timeouts: the first logon upgrades the stored credential to bcrypt, slow on a loaded machine
+        r = self.srv.req("POST", "/services/admin/logon", auth=("admin", "secret"), timeout=300)
+        self.tok = (r.json() or {}).get("token")
         if not self.tok:
-            raise vf.NoVerdict("logon failed: " + self.srv.log_text()[-1500:])
-        r = self.srv.req("POST", "/dsns/", {"name": DSN, "provider": "sqlite", "database": self.dbfile, "restricted": False}, token=self.tok)
+            raise vf.NoVerdict("logon failed: %r %s" % (r, self.srv.log_text()[-1500:]))
+        r = self.srv.req("POST", "/dsns/", {"name": DSN, "provider": "sqlite", "database": self.dbfile, "restricted": False},
+                         token=self.tok, timeout=300)
         if r.status not in (200, 201):
             raise vf.NoVerdict("cannot create DSN: %r" % r)
-        r = self.srv.req("GET", "/dsns/%s/tables/t1/rows" % DSN, token=self.tok)
+        r = self.srv.req("GET", "/dsns/%s/tables/t1/rows" % DSN, token=self.tok, timeout=300)
         if r.status != 200 or len((r.json() or {}).get("rows") or []) != len(TABLE0):
             raise vf.NoVerdict("baseline read of t1 through the server failed: %r" % r)
         self._open_log()
